@@ -102,6 +102,36 @@ theorem asm_local (cfg : Config) (sh : Shared) (t : Thread) (rpc pc : Nat) (m : 
        all_goals simp [asmStep, acquireAsm, load64, load32, store32, store64, getReg, setReg, fpStateOff, fpAttemptsOff,
         Local, AsmLocal, hheld, LockEffect, CtrEffect, Owner, asmWon, hph, hnl, hw, two32, hz, *])
 
+set_option maxHeartbeats 1000000 in
+/-- Inside `archAcquireSpinlock` ownership is never lost, is gained only by the exchange at
+instruction 3 reading 0 from the lock word, and `RET` is executed only by an owner. -/
+theorem asm_own (cfg : Config) (sh : Shared) (t : Thread) (rpc pc : Nat) (m : Method) hv
+    (hph : t.ph = .asm m rpc pc) (hL : Local cfg t)
+    (hw : sh.lock = 0 ∨ sh.lock = 1) (ho : Owner t → sh.lock = 1) :
+    let r := asmStep cfg sh t m rpc pc hv
+    (Owner t → Owner r.2 ∧ r.1.lock = 1) ∧
+    (¬ Owner t → Owner r.2 → pc = 3 ∧ sh.lock = 0 ∧ r.1.lock = 1) ∧
+    (acquireAsm[pc]? = some .ret → Owner t) ∧
+    (∀ m' pc', r.2.ph = .go m' pc' → acquireAsm[pc]? = some .ret) := by
+  simp only [Local, hph] at hL
+  obtain ⟨rfl, rfl, hheld, hA⟩ := hL
+  have hO : Owner t ↔ asmWon pc t := by simp [Owner, hheld, hph]
+  rw [hO] at ho
+  rcases pc with _|_|_|_|_|_|_|_|_|_|_|_|_|_|_|_|_|_|_|_|pc
+  all_goals simp only [AsmLocal] at hA
+  all_goals simp only [asmWon] at ho
+  all_goals (try rcases hw with hw | hw)
+  all_goals (try (rcases hA with ⟨hax, hb | hb⟩))
+  all_goals first
+    | (simp [asmStep, acquireAsm, load64, load32, store32, store64, getReg, setReg, fpStateOff, fpAttemptsOff,
+        hheld, Owner, asmWon, hph, hw, two32, *]; done)
+    | (cases hz : t.zf
+       all_goals (try simp only [hz, Bool.false_eq_true, false_iff, true_iff] at hA)
+       all_goals (rcases hv with _ | ⟨a, b, c, d, z⟩)
+       all_goals simp [asmStep, acquireAsm, load64, load32, store32, store64, getReg, setReg, fpStateOff, fpAttemptsOff,
+        hheld, Owner, asmWon, hph, hw, two32, hz, *]
+       all_goals (exfalso; simp_all))
+
 theorem go_local (cfg : Config) (sh : Shared) (t : Thread) (m : Method) (pc : Nat)
     (hph : t.ph = .go m pc) (hL : Local cfg t)
     (hw : sh.lock = 0 ∨ sh.lock = 1) (ho : Owner t → sh.lock = 1)
@@ -184,17 +214,25 @@ theorem tstep_local (cfg : Config) (sh sh' : Shared) (t t' : Thread) (ch : Choic
       simp [Local, LockEffect, CtrEffect, Owner, hph, hh, (hloc v hl).1]
     · cases h
   · rename_i m pc hph
-    cases h
-    exact go_local cfg sh t m pc hph hL hw ho hloc
+    have h := Option.some.inj h
+    have := go_local cfg sh t m pc hph hL hw ho hloc
+    simp only [h] at this
+    exact this
   · rename_i m pc _ _ _ _ _ hph
-    cases h
-    exact go_local cfg sh t m pc hph hL hw ho hloc
+    have h := Option.some.inj h
+    have := go_local cfg sh t m pc hph hL hw ho hloc
+    simp only [h] at this
+    exact this
   · rename_i m rpc pc hph
-    cases h
-    exact asm_local cfg sh t rpc pc m none hph hL hw ho hloc
+    have h := Option.some.inj h
+    have := asm_local cfg sh t rpc pc m none hph hL hw ho hloc
+    simp only [h] at this
+    exact this
   · rename_i m rpc pc a b c d z hph
-    cases h
-    exact asm_local cfg sh t rpc pc m _ hph hL hw ho hloc
+    have h := Option.some.inj h
+    have := asm_local cfg sh t rpc pc m (some (a, b, c, d, z)) hph hL hw ho hloc
+    simp only [h] at this
+    exact this
   · cases h
 
 end Firefly.Spin
